@@ -29,7 +29,8 @@ print("valid seed:", valid, "(with:%d without:%d suite_ok:%s)" % (rc_with, rc_wi
 dst = "/verif/seeded/%s" % pid
 os.makedirs(dst, exist_ok=True)
 for f in os.listdir(seed):
-    shutil.copy(os.path.join(seed, f), os.path.join(dst, f))
+    if os.path.isfile(os.path.join(seed, f)):
+        shutil.copy(os.path.join(seed, f), os.path.join(dst, f))
 # 4. run the checks against a scratch copy of /repo's working tree with the patch applied (VERIF_REPO); /repo is not touched
 results = {}
 if valid:
